@@ -37,9 +37,10 @@ def impl_new_id(arg):
     try: return ['ok', SVG.fromstring(doc)._new_id(prefix + '%d')]
     except ValueError: return ['err', 'ValueError']
 
-URLS = ['url(#a)', 'url(#a-b_1)', 'url(#a)\n', 'url(#)', 'url(#a', 'url(a)', 'url( #a)', 'url(#a b)', 'url(#a)x', 'URL(#a)', 'url(#a))', 'none', '', 'url(#A9_-)', 'url(#a.b)', "url('#a')"]
+URLS = ['url(#a)', 'url(#a-b_1)', 'url(#a)\n', 'url(#)', 'url(#a', 'url(a)', 'url( #a)', 'url(#a b)', 'url(#a)x', 'URL(#a)', 'url(#a))', 'none', '', 'url(#A9_-)', 'url(#a.b)', "url('#a')",
+        'url(#a) red', 'url(#a.b:c)  none', 'url(#a) red\n', 'url(#a) \n', 'url(#a)\n\n', 'url(#a)\n\nx', 'url(#a) red blue', 'url(#a)\tcurrentColor', 'url(#a) ', 'url(#a)  x ']
 def case_id_of_target(rng):
-    u = rng.choice(URLS) if rng.random() < 0.7 else 'url(#' + ''.join(rng.choice('ab1_-. )(') for _ in range(rng.randint(0, 4))) + ')'
+    u = rng.choice(URLS) if rng.random() < 0.7 else 'url(#' + ''.join(rng.choice('ab1_-.: )(') for _ in range(rng.randint(0, 4))) + ')' + rng.choice(['', '', ' x', '\n', ' \n', '  r\n', ' a b'])
     return ('id_of_target', u), True
 
 def impl_id_of_target(u):
@@ -161,6 +162,14 @@ def search(ctx, broken, disagreements):
     return found, {'evaluations': n, 'distribution': dist}
 
 def matches_known(v, entry):
+    pat = entry.get('signature', {}).get('pattern')
+    doc = v['input'].get('doc', '') if isinstance(v.get('input'), dict) else ''
+    viol = json.dumps(jsonable(v.get('observed')))
+    if 'dangling reference' not in viol: return False
+    if pat == 'paint_points_at_non_gradient':
+        return any(re.search(r'<(pattern|mask|filter)\b[^>]*\bid="%s"' % re.escape(m), doc) for m in re.findall(r'url\(#([^)]+)\)', doc))
+    if pat == 'gradient_inside_anonymous_symbol':
+        return bool(re.search(r'<symbol(?![^>]*\bid=)[^>]*>(?:(?!</symbol>).)*Gradient', doc, re.S))
     return False
 
 def replay(ctx, w):
